@@ -12,6 +12,8 @@ import numpy as np
 ATOMIC_WEIGHT = {
     'H': 1.00794, 'He': 4.002602, 'C': 12.011, 'N': 14.00674, 'O': 15.9994, 'Na': 22.989768,
     'S': 32.066, 'K': 39.0983, 'Ti': 47.88, 'V': 50.9415, 'Fe': 55.847,
+    'Li': 6.941, 'F': 18.9984032, 'Ne': 20.1797, 'Mg': 24.3050, 'Al': 26.981539, 'Si': 28.0855, 'P': 30.973762,
+    'Cl': 35.4527, 'Ar': 39.948, 'Ca': 40.078, 'Co': 58.93320, 'Cs': 132.90543, 'Hf': 178.49, 'No': 259.0, 'I': 126.90447,
 }
 
 
